@@ -8,7 +8,7 @@ prev = {}
 for d in sorted(glob.glob('/verif/seeded/C*-*m*')):
     m = json.load(open(d + '/meta.json'))
     prev.setdefault(m['property'], []).append(m['summary'])
-T = '''You are helping to evaluate a test suite by writing deliberately faulty variants ("mutants") of a Rust library. Work ONLY inside the directory {wt} (a scratch git worktree of the log4rs logging library; edit nothing outside it, and never touch /repo or /verif). The sandbox is offline: always pass --offline to cargo (e.g. `cargo test --offline`). Do not modify any item guarded by `#[cfg(log4rs_verif)]` (ignore those hooks).
+T = '''You are helping to evaluate a test suite by writing deliberately faulty variants ("mutants") of a Rust library. Work ONLY inside the directory {wt} (a scratch git worktree of the log4rs logging library; edit nothing outside it, and never touch /repo or /verif). The sandbox is offline: always pass --offline to cargo (e.g. `cargo test --offline`). Do not modify any item guarded by `#[cfg(log4rs_verif)]` (ignore those hooks). Neither your changes nor your demonstrations may delete, replace or write to anything outside temporary directories they create themselves (in particular never device nodes under /dev such as /dev/full or /dev/null: open them through a symbolic link in a temporary directory if you need one).
 
 Here is a semantic property the library is supposed to satisfy:
 
